@@ -106,7 +106,10 @@ def strategy(tier):
         # point the same object at an earlier root (index into the ledger) and go on from there
         st.tuples(st.just("reroot"), st.tuples(st.just("lit"), st.just(b"\x00")), st.just(b""), st.integers(0, 40)),
     )
-    return st.lists(op, min_size=3, max_size=20 if tier == "quick" else 60)
+    # a leading marker op switches the case to sparse look-ups (see run_case)
+    sparse = st.tuples(st.just("sparse"), st.tuples(st.just("lit"), st.just(b"\x00")), st.just(b""), st.just(0))
+    body = st.lists(op, min_size=3, max_size=20 if tier == "quick" else 60)
+    return st.one_of(body, body, st.builds(lambda m, b: [m] + b, sparse, body))
 
 
 def exhaustive(tier):
@@ -215,8 +218,12 @@ def run_case(case):
     ledger = {BLANK: {}}
     order = [BLANK]
     refusals = compress = splits = 0
+    sparse = bool(case) and case[0][0] == "sparse"
+    info.label("sparse-lookups", sparse)
     for no, op in enumerate(case):
         kind, kspec, val, syn = op
+        if kind == "sparse":
+            continue
         if kind == "reroot":
             old = order[syn % len(order)]
             t.root_hash = old
@@ -275,7 +282,11 @@ def run_case(case):
         if kind == "set" and nb_after > nb_before and nb_before + len(before_shape.bodies) > 0:
             splits += 1
             info.label("set-splits-kv")
-        check_reads(t, model, lookups(model, k), no == len(case) - 1)
+        if sparse and no != len(case) - 1:
+            # only the key just used, in one spelling (no sweep that would touch other keys)
+            check_reads(t, model, [k], False)
+        else:
+            check_reads(t, model, lookups(model, k), no == len(case) - 1)
         root = bytes(t.root_hash)
         if root in ledger:
             expect_eq("root-determines-contents", ledger[root], model, "two mappings under one root")
@@ -283,7 +294,7 @@ def run_case(case):
             ledger[root] = dict(model)
             order.append(root)
         # earlier roots remain readable from the same db
-        for old in {order[0], order[no % len(order)], order[(no * 5 + 1) % len(order)]}:
+        for old in ([] if sparse else {order[0], order[no % len(order)], order[(no * 5 + 1) % len(order)]}):
             # re-open from an equal but distinct bytes object (as after a (de)serialisation)
             ot = impl("construct", BinaryTrie, db, bytes(bytearray(old)))
             check_reads(ot, ledger[old], sorted(ledger[old]) + [k, b"\x00"], False)
